@@ -19,6 +19,8 @@ EXPLANATION = (
     "`n_elements += 1`, is_occupied.set(quotient,true), remainders.set(position, remainder) and Ok(true). len/is_empty read "
     "n_elements only; query is scan(q, r, false).present with (q, r) from the same calc_quotient_remainder(obj) that insert uses."
 )
+from .common import NEW_WRITERS_NOTE as _NWN
+EXPLANATION = EXPLANATION + _NWN % "13"
 NOT_DECIDED = ("the heart of C13: that scan() finds the run of a quotient and that the swap chain keeps is_occupied/is_continuation/"
                "is_shifted consistent for every layout including wrap-around — an inductive invariant over four parallel arrays, "
                "outside what path/shape rules can decide")
@@ -139,6 +141,8 @@ class ScanView:
 
 
 def run(ctx):
+    from .common import check_new_writers
+    check_new_writers(ctx, "R13-new-writers", ['filters::quotientfilter::QuotientFilter'])
     prog = ctx.prog
     ii = ctx.anchor(QF + "::insert_internal")
     if ii is None:
